@@ -340,16 +340,14 @@ func runCheck(env *Env, id, tier string, spec *CheckSpec, doReplay bool) int {
 	diffChecked := 0
 	var diffDisagree []string
 	if len(rr.samples) > 0 {
-		n := len(rr.samples)
-		if tierN == 0 && n > 40 {
-			n = 40
+		// quick: the first 40 (z3 5.1.0) / 10 (cvc5) sampled queries; thorough: 480 / 160 spread evenly over the sample,
+		// re-decided by 8 solver processes in parallel
+		n, nc := 40, 10
+		if tierN == 1 {
+			n, nc = 480, 160
 		}
-		c1, d1 := crossCheck(rr.samples[:n], []string{"z3-new", "-in", "-smt2"}, env.SolverMs)
-		nc := n
-		if tierN == 0 && nc > 10 {
-			nc = 10
-		}
-		c2, d2 := crossCheck(rr.samples[:nc], []string{"cvc5", "--incremental", "--lang=smt2", "--tlimit-per=60000"}, env.SolverMs)
+		c1, d1 := crossCheckPar(strideSample(rr.samples, n), []string{"z3-new", "-in", "-smt2"}, env.SolverMs)
+		c2, d2 := crossCheckPar(strideSample(rr.samples, nc), []string{"cvc5", "--incremental", "--lang=smt2", "--tlimit-per=60000"}, env.SolverMs)
 		diffChecked = c1 + c2
 		diffDisagree = append(d1, d2...)
 		for _, d := range diffDisagree {
